@@ -6,7 +6,7 @@
      Clean k                                    (kernel cleaner: one process_ccq_entry callback)
    cf = (timeouts, which handleNATEntries: pinned or repaired).  The kernel steps Clean/Packet are hand models of C code. *)
 From Coq Require Import List NArith ZArith Bool.
-From Verif.C14 Require Import Model Spec Proofs Safety SafetyCor Liveness LivenessGen FullScan MeetsSpec Witness.
+From Verif.C14 Require Import Model Spec Proofs Safety SafetyCor Liveness LivenessGen FullScan MeetsSpec MeetsSpecC Witness.
 Import ListNotations.
 Open Scope Z_scope.
 
@@ -227,6 +227,28 @@ Theorem c14_model_meets_spec_sound : forall t segs s,
   sound_segs t (ct s, kclock s) segs (run_segs (mkConf t true) s segs) = true.
 Proof. exact model_meets_spec_sound. Qed.
 Print Assumptions c14_model_meets_spec_sound.
+
+(* MODEL MEETS SPEC, completeness half: while all ticks so far moved the kernel clock and the Go clock together (the
+   condition under which the oracle demands completeness at all), every entry that a scan visited, that nothing touched
+   during that scan, and that was idle past its timeout by more than the second the cached kernel time may lag - and
+   every forward entry whose reverse entry was absent when visited - is covered by the queue the model hands over. *)
+Theorem c14_model_meets_spec_complete : forall t segs s sy,
+  Start s -> (sy = true -> SyncInv s) ->
+  Forall (fun seg => Forall seg_step seg /\ NoDup (judged seg)) segs ->
+  complete_segs t (ct s, kclock s) sy segs (run_segs (mkConf t true) s segs) = true.
+Proof. exact model_meets_spec_complete. Qed.
+Print Assumptions c14_model_meets_spec_complete.
+
+(* MODEL MEETS SPEC: the oracle `ok_segs` - exactly the term Spec.check_case evaluates on the real scanner's queues -
+   accepts every run of the model (repaired handleNATEntries): any table without the all-zero key, timestamps not in the
+   future, forward entries not pointing at protocol-0 keys, any non-negative clock, any list of scans made of ticks,
+   packets, rewrites, evictions and scanner callbacks with each key visited at most once per scan. *)
+Theorem c14_model_meets_spec : forall t ct0 k0 g0 segs,
+  0 <= k0 -> lookup dummy ct0 = None -> (forall k e, lookup k ct0 = Some e -> e_ls e <= k0) -> WF ct0 ->
+  Forall (fun seg => Forall seg_step seg /\ NoDup (judged seg)) segs ->
+  ok_segs t (ct0, k0) true segs (run_segs (mkConf t true) (init ct0 k0 g0) segs) = true.
+Proof. exact model_meets_spec. Qed.
+Print Assumptions c14_model_meets_spec.
 
 (* the judged idle time only grows with the clock (so a stale cached kernel time errs on the side of keeping) *)
 Theorem c14_expired_monotone : forall t now now' p e,
